@@ -53,7 +53,15 @@ ASSUMPTIONS = ['apply_slice with in-range pairs 0 <= start < stop <= extent has 
                'the diagonal index functions (Linalg.shapeDiagonal / diagonalIdx) are the mirrors written for C16; here they are tied to the code through every element of every trace request']
 PARTIAL = ['mean_eq_sum_div_count / var_eq_mean_sq_dev / stddev_eq_sqrt_var / vector_norm_eq (and their _pos_axes forms) are plumbing statements over abstract element operations (which elements are folded, in which order, divided by their count); var takes the broadcast of the keepdims mean against the input as the index map C06 proves; the float arithmetic itself is compared with NumPy under a tolerance',
            'mean / var / stddev / vector_norm over NO element (a reduced extent 0) stay outside the modelled domain (their theorems ask the reduced extents to be positive; NumPy gives nan with a warning)',
-           'var / stddev on a shape with a REDUCED extent 0 are not requested (NumPy gives nan with a warning; the broadcast of the keepdims mean against the input, which used to fail on (0,0) vs (1,0), is repaired by fix commit f45d8fe)', src='h_c08.cpp', flavour='fast'),
+           'var / stddev on a shape with a REDUCED extent 0 are not requested (NumPy gives nan with a warning; the broadcast of the keepdims mean against the input, which used to fail on (0,0) vs (1,0), is repaired by fix commit f45d8fe)']
+TRUSTED = []
+
+
+CT_PAIRS = {(0, 1), (1, 0), (0, 2), (2, 0), (1, 2), (-1, 0), (-1, -3), (1, -1), (-2, -1)}
+
+
+def harness_specs(tier):
+    return [dict(name='h_c08', src='h_c08.cpp', flavour='fast'),
             dict(name='h_c08c', src='h_c08c.cpp', flavour='fast'),
             dict(name='h_c08_san', src='h_c08.cpp', flavour='san-dbg'),   # asserts on, ASan + UBSan: reduce_inBounds observed
             dict(name='h_c08n', src='h_c08n.cpp', flavour='fast'),
